@@ -45,6 +45,9 @@ struct Case {
     schedule: Vec<Value>,
     #[serde(default)]
     pk: bool,
+    /// non-zero: probe the manifest-lock discipline with extra, seeded releases
+    #[serde(default)]
+    probe_seed: u64,
 }
 
 const GATES: &[&str] = &[
@@ -55,6 +58,7 @@ const GATES: &[&str] = &[
     "txn.locked",
     "scan.open",
     "txn.before_commit",
+    "commit.applied",
     "txn.committed",
     "ddl.create.logged",
     "ddl.drop.applied",
@@ -78,7 +82,8 @@ fn action_site(a: &str) -> Option<(&'static str, &'static str)> {
         "ScanRead" | "ReadOpen" => ("scan", "scan.open"),
         "ReadBatch" | "ReadClose" => ("scan", "rd.batch"),
         "InsPin" | "DelPin" => ("task", "txn.before_pin"),
-        "InsCommit" | "DelCommit" => ("task", "txn.before_commit"),
+        "InsCommitA" | "DelCommitA" => ("task", "txn.before_commit"),
+        "InsCommit" | "DelCommit" => ("task", "commit.applied"),
         "InsFinish" | "DelFinish" => ("task", "txn.committed"),
         "DelLock" => ("task", "txn.before_lock"),
         "DelPrep" => ("task", "txn.locked"),
@@ -87,7 +92,8 @@ fn action_site(a: &str) -> Option<(&'static str, &'static str)> {
         "DropCommit" => ("task", "ddl.drop.pinned"),
         "CompWake" => ("compactor", "compactor.wake"),
         "CompVisit" => ("compactor", "compactor.before_try_lock"),
-        "CompCommit" => ("compactor", "compactor.before_commit"),
+        "CompCommitA" => ("compactor", "compactor.before_commit"),
+        "CompCommit" => ("compactor", "commit.applied"),
         "CompRelease" => ("compactor", "compactor.committed"),
         "CompSleep" => ("compactor", "compactor.pass_done"),
         "VacFind" => ("vacuum", "vacuum.wake"),
@@ -229,6 +235,10 @@ fn auto_release(p: &Parked, setup: bool) -> bool {
     if setup {
         // during setup only the compactor is held
         return !p.actor.starts_with("compactor");
+    }
+    // DDL commits are one step of the specification
+    if p.label == "commit.applied" && (p.actor.contains("CreateTable") || p.actor.contains(".drop")) {
+        return true;
     }
     // the statistics probe of Database::run (read txn on the session's main task)
     p.label == "txn.before_pin" && role_of(&p.actor) == "main"
@@ -434,8 +444,30 @@ async fn run_case(case: &Case, rec: Arc<Rec>) -> Value {
     settle(&mut ctl, false).await;
 
     // ---- the schedule
+    let mut probes = 0usize;
+    let mut lcg: u64 = case.probe_seed.wrapping_mul(6364136223846793005).wrapping_add(1442695040888963407);
     for (i, step) in case.schedule.iter().enumerate() {
         let a = step["a"].as_str().unwrap_or("");
+        // Negative probe: while somebody is between "snapshot applied" and "published" (it holds
+        // the manifest lock), let another actor that wants to commit run.  The specification says
+        // it must block; if the code lets it through, the outcome validation will tell.
+        if case.probe_seed != 0 {
+            lcg = lcg.wrapping_mul(6364136223846793005).wrapping_add(1442695040888963407);
+            let mid = ctl.parked.iter().find(|p| p.label == "commit.applied").map(|p| Controller::root(&p.actor).to_string());
+            if let Some(holder) = mid {
+                if (lcg >> 33) % 3 == 0 {
+                    let got = ctl.release_where(|p| {
+                        Controller::root(&p.actor) != holder
+                            && matches!(p.label, "txn.before_commit" | "compactor.before_commit" | "ddl.drop.pinned")
+                    });
+                    if let Some((actor, label)) = got {
+                        probes += 1;
+                        log.push(json!(["probe", actor, label]));
+                        settle(&mut ctl, false).await;
+                    }
+                }
+            }
+        }
         let Some((role, want_label)) = action_site(a) else {
             drift.push(json!({"step": i, "why": "unknown action", "a": a}));
             continue;
@@ -513,7 +545,7 @@ async fn run_case(case: &Case, rec: Arc<Rec>) -> Value {
     };
     let res = results.lock().unwrap().clone();
     json!({"id": case.id, "results": res, "final": fin, "reopened": reopened, "deadlock": deadlock,
-           "drift": drift, "log": log, "bind": bind, "trace_init": trace_init, "order": order, "state": state, "files": files,
+           "drift": drift, "log": log, "probes": probes, "bind": bind, "trace_init": trace_init, "order": order, "state": state, "files": files,
            "trace": events.iter().map(|e| e.to_json()).collect::<Vec<_>>()})
 }
 
